@@ -121,7 +121,7 @@ def one(rec, t, ti, name, obj):
     if data != ref_bytes:
         rec.count("real-bytes-differ-from-reference")
     reader = t.EoReader(data)
-    ls = LockstepReader(reader, RefReader(data), fuel=50 * len(data) + 2000)
+    ls = LockstepReader(reader, RefReader(data), fuel=min(50 * len(data) + 2000, 6 * len(data) + 200000))
     try:
         back = C.deserialize(ls)
     except FuelExhausted:
